@@ -21,6 +21,10 @@ structure SrvSt where
   certAuth : Bool := false
   /-- an application command handler is installed -/
   hasHandler : Bool := true
+  /-- names under which the application registered executors of its own (`RegisterExexutor`, names in upper case as
+  the built-in ones are); the executor modelled is the simplest one that reaches the handler: it decodes one string
+  argument and calls `Get` -/
+  appGet : List Bytes := []
 deriving Repr, Inhabited
 
 def outOf (r : HRes) : Out :=
@@ -738,6 +742,7 @@ def executeCommand (pf : FloatOracle) (srv : SrvSt) (conn : ConnSt) (cmd : Bytes
       | some ex => keep (gated conn ucmd (ex args))
       | none =>
         if ucmd = b!"HLEN" then keep (gated conn ucmd (execHLen pf srv conn args))
+        else if srv.appGet.contains ucmd then keep (gated conn ucmd (shapeS .get args).lift)
         else .ret (.reply (notSupported cmd), conn, srv)
 
 end GoRedis
